@@ -8,7 +8,8 @@ PROPS = {}
 
 COMMON_ASSUMPTIONS = [
     "CPython, numpy, scipy, cma, dill as installed are trusted",
-    "the objective is pure and deterministic (guaranteed by the generator)",
+    "the objective is pure, deterministic and never NaN (guaranteed by the generator; the one exception is C19's dump-purity sub-case, which runs on an objective that is NaN in a region)",
+    "all levels of a tree optimise over the same box (per-level boxes are outside what the properties quantify over)",
     "only configurations, boxes, objectives and seeds produced by vlib/gen.py are covered; nothing is claimed for paths the workload never drove",
     "taps are pass-through wrappers attached from the harness (vlib/harness.py); no source hook in /repo",
 ]
@@ -1312,7 +1313,7 @@ class C17(DirectSpec):
     budgets = {"quick": 150.0, "thorough": 1500.0}
     assumptions = [
         "floats are treated as exact rationals (fractions.Fraction); tolerance for moved coordinates is 8*eps*(|x|+|lower|+|upper|), vacuous when it exceeds the range",
-        "only finite inputs and boxes with lower < upper",
+        "only finite inputs and boxes with lower < upper; inputs whose offset x - bound is itself not a finite double (|x - bound| > 1.8e308) are left out",
     ]
 
     def floors(self, tier):
